@@ -1,6 +1,7 @@
 import InfluxQL.Lemmas.ScannerPos
 import InfluxQL.Lemmas.Ring
 import InfluxQL.Lemmas.ScanOps
+import InfluxQL.Lemmas.ScanOpsEq
 /-!
 # C05 — the lexer partitions its input and reports exact positions
 
@@ -251,6 +252,43 @@ theorem scanner_on_ring_is_pure (text : List Char) (fuel : Nat) (calls : List Sc
     obtain ⟨outs, r'⟩ := res
     have ho := reader_ring_is_lookahead text _ outs r' hb hrun
     exact ⟨r', ScanOps.runRing_of_trace text _ 0 _ r' outs hrun ho⟩
+
+/-- **C05 (`Scan` of the transcription = `scan` of the model).** Run on the pure stream from any
+logical position `k` of any text, the operation-level `Scan` returns the lexeme of the pure-cursor
+model and ends at the position where the model's cursor ends (fuel beyond the end of the text: no
+loop runs out of it). -/
+theorem scanner_ops_compute_scan (text : List Char) (fuel k : Nat) (h : text.length < fuel) :
+    scan (ScanOps.curAt text k) =
+      (((ScanOps.opScan fuel).run text k).2.1,
+        ScanOps.curAt text ((ScanOps.opScan fuel).run text k).2.2) :=
+  ScanOps.opScan_eq text fuel k (Nat.lt_of_le_of_lt (ScanOps.L_le text) h)
+
+/-- The same for `ScanRegex` (`ScanDelimited` with its `ReadRune` / `UnreadRune` pass-through of
+unknown escapes against the one-rune-at-a-time loop of the model). -/
+theorem scanner_ops_compute_scanRegex (text : List Char) (fuel k : Nat) (h : text.length < fuel) :
+    scanRegex (ScanOps.curAt text k) =
+      (((ScanOps.opScanRegex fuel).run text k).2.1,
+        ScanOps.curAt text ((ScanOps.opScanRegex fuel).run text k).2.2) :=
+  ScanOps.opScanRegex_eq text fuel k (Nat.lt_of_le_of_lt (ScanOps.L_le text) h)
+
+/-- **C05 (scanner + ring as written = pure-cursor model).** For every text and every sequence of
+`Scan` / `ScanRegex` / `peekRune` / `peekComment` calls, the transcribed functions run on the
+reader's 3-slot ring as written never trip the depth assertion and return exactly the tokens of
+`scan` / `scanRegex` of `Model/Scanner.lean` (and the peeked runes) on the pure cursor. -/
+theorem scanner_on_ring_is_model (text : List Char) (calls : List ScanOps.Call) :
+    ∃ r', (ScanOps.opCalls (ScanOps.fuelFor text) calls).runRing (Ring.readerInit text) =
+      some (ScanOps.pureCalls calls (Cursor.ofRunes text), r') := by
+  obtain ⟨r', hr⟩ := scanner_on_ring_is_pure text (ScanOps.fuelFor text) calls
+  refine ⟨r', ?_⟩
+  rw [hr, ← ScanOps.curAt_zero]
+  have := ScanOps.opCalls_eq text (ScanOps.fuelFor text)
+    (Nat.lt_of_le_of_lt (ScanOps.L_le text) (by simp [ScanOps.fuelFor])) calls 0
+  simp only [ScanOps.Prog.res] at this
+  rw [this]
+
+-- non-vacuity: `.5` after a peekComment reaches depth two and comes out as NUMBER
+example : (ScanOps.pureCalls [.peekComment, .scan, .scan] (Cursor.ofRunes ['.', '5', '/', '/'])) =
+    [.bool false, .tok ⟨.NUMBER, ⟨0, 0⟩, ['.', '5']⟩, .tok ⟨.DIV, ⟨0, 2⟩, []⟩] := by decide
 
 -- non-vacuity: a CRLF text read with look-ahead two deep (read read unread unread read curr)
 example : ∃ outs r', Ring.Balanced [.read, .read, .unread, .unread, .read, .curr] 0 = true ∧
